@@ -22,6 +22,9 @@
 (*             = "any" : any entry, nothing re-validated (an eviction that *)
 (*                      ignores dependants - used to show the invariants   *)
 (*                      are not vacuous)                                   *)
+(*   TimedAlways = TRUE : the height-dependent admission rules do not depend *)
+(*                      on the fill level (FALSE: lock height skipped when  *)
+(*                      the public pool is over capacity; anti-vacuity)     *)
 (*   StemRecheck = "always": the stempool is re-validated on top of the     *)
 (*                      public pool whenever a tx enters the public pool   *)
 (*               = "touching": only when that tx shares a kernel or a spent*)
@@ -48,6 +51,10 @@ CONSTANTS Atoms,          \* [1..N -> [ins, outs, fee, shift, lock, nrd]]
           MaxBlockWeight, \* global::max_block_weight()
           MineWeight,     \* PoolConfig.mineable_max_weight
           FeeFirst, EvictMode,
+          TimedAlways,    \* TRUE: lock height (and coinbase maturity, NRD) are demanded whatever the fill level of the pool -
+                          \* what C13/C14 demand and what add_to_pool does; FALSE: the lock-height test sits behind the
+                          \* capacity test (is_acceptable), and a non-stem OverCapacity means "admit, then evict" - the
+                          \* careless variant: an over-capacity pool admits a tx locked to a future height
           StemRecheck,    \* "always": every tx that enters the public pool (submission or reorg cache) is followed by a
                           \* re-validation of the whole stempool on top of the new public pool - what "stem transactions
                           \* are jointly valid with the public pool" demands and what add_to_txpool does;
@@ -177,14 +184,15 @@ Rej(why) == [res |-> "reject", why |-> why, tp |-> txpool, sp |-> stempool, ca |
 
 \* the checks common to both paths after acceptability: validate, lock height, locate_spends, maturity.
 \* Returns "" when all pass, else the reason.
-Screen(e, poolAtoms) ==
+Screen2(e, poolAtoms, withLock) ==
   IF ~WellFormed(e) THEN "invalid"
   ELSE IF WeightOf(e) > MaxTxWeight THEN "weight"
-  ELSE IF LockOf(e.k) > Height + 1 THEN "locked"
+  ELSE IF withLock /\ LockOf(e.k) > Height + 1 THEN "locked"
   ELSE LET fromUtxo == e.ins \ TxOf(poolAtoms).outs
        IN IF ~(fromUtxo \subseteq U) THEN "missing_input"
           ELSE IF \E c \in fromUtxo : ~MatureAt(c, Height + 1) THEN "immature"
           ELSE ""
+Screen(e, poolAtoms) == Screen2(e, poolAtoms, TRUE)
 
 \* the quick "do they touch" filter (shared kernel or shared spent input) - NOT enough to decide whether a stem tx
 \* survives a new public-pool tx: output commitments have to be unique too
@@ -208,7 +216,8 @@ Fluff(t) ==
        IN IF \E a \in f.k : Atoms[a].nrd THEN Rej("nrd")
           ELSE IF FeeFirst /\ Underpaid(f) THEN Rej("fee")
           ELSE IF ~over /\ Underpaid(f) THEN Rej("fee")
-          ELSE LET s == Screen(e, AtomsIn(txpool))
+          ELSE LET \* careless order only: over capacity, the lock height is never looked at
+                   s == Screen2(e, AtomsIn(txpool), TimedAlways \/ ~over)
                IN IF s # "" THEN Rej(s) ELSE AddFluff(e.k, stempool, over)
 
 Stem(t, relay) ==
